@@ -544,3 +544,8 @@ def run(ck):
     run_canned_bodies(ck)
     run_pool_order(ck)
     run_encoders(ck)
+    import importlib.util
+    spec = importlib.util.spec_from_file_location("c15_pyro", os.path.join(os.path.dirname(os.path.abspath(__file__)), "c15_pyro.py"))
+    c15_pyro = importlib.util.module_from_spec(spec)
+    spec.loader.exec_module(c15_pyro)
+    c15_pyro.run_pyro(ck)
